@@ -11,6 +11,7 @@ import (
 	"strings"
 	"sync"
 	"sync/atomic"
+	"time"
 
 	jsonv2 "github.com/go-json-experiment/json"
 	jsonv1 "github.com/go-json-experiment/json/v1"
@@ -198,9 +199,19 @@ func v1Exec(c *v1Case) {
 		step("Compact", res(e1 == nil, b1.Bytes()), res(e2 == nil, b2.Bytes()))
 		b1.Reset()
 		b2.Reset()
-		prefix, indent := []string{"", " ", "\t"}[r.IntN(3)], []string{"", "  ", "\t", " \t"}[r.IntN(4)]
-		e1, e2 = jsonv1.Indent(&b1, in, prefix, indent), stdjson.Indent(&b2, in, prefix, indent)
-		step("Indent", res(e1 == nil, b1.Bytes()), res(e2 == nil, b2.Bytes()))
+		// encoding/json takes any string as prefix and indent
+		prefix := []string{"", " ", "\t", ">", "ab", "x\t", ""}[r.IntN(7)]
+		indent := []string{"", "  ", "\t", " \t", "ab", "-", ""}[r.IntN(7)]
+		e2 = stdjson.Indent(&b2, in, prefix, indent)
+		if hungCalls.Load() > 3 {
+			step("Indent-skipped-after-hangs", res(true, nil), res(true, nil))
+		} else if !watchdog(func() { e1 = jsonv1.Indent(&b1, in, prefix, indent) }) {
+			c.Panic = fmt.Sprintf("no termination within %v: v1.Indent(%q, %q, %q)", watchdogLimit, in, prefix, indent)
+			step("Indent", res(false, []byte("timeout")), res(e2 == nil, b2.Bytes()))
+			b1 = bytes.Buffer{}
+		} else {
+			step("Indent", res(e1 == nil, b1.Bytes()), res(e2 == nil, b2.Bytes()))
+		}
 		b1.Reset()
 		b2.Reset()
 		jsonv1.HTMLEscape(&b1, in)
@@ -326,6 +337,24 @@ func v1Exec(c *v1Case) {
 				step("InputOffset", res(true, []byte(fmt.Sprint(d1.InputOffset()))), res(true, []byte(fmt.Sprint(d2.InputOffset()))))
 			}
 		}
+		// the usual client loop to the end of the input: More, Token, ... until both give up
+		// (what a decoder does after it reported an error is not compared)
+		failed := false
+		for _, st := range c.Steps {
+			if !st[1].([]any)[0].(bool) && st[0] != "More" {
+				failed = true
+			}
+		}
+		for i := 0; i < 40 && !failed; i++ {
+			allTok = false
+			step("More", res(d1.More(), nil), res(d2.More(), nil))
+			t1, e1 := d1.Token()
+			t2, e2 := d2.Token()
+			step("Token", res(e1 == nil, []byte(fmt.Sprintf("%T %v", t1, t1))), res(e2 == nil, []byte(fmt.Sprintf("%T %v", t2, t2))))
+			if e1 != nil || e2 != nil {
+				break
+			}
+		}
 		if !allTok {
 			c.Toks = []string{}
 		}
@@ -357,6 +386,31 @@ func v1Exec(c *v1Case) {
 				step("Encode", res(x1 == nil, w1.Bytes()), res(x2 == nil, w2.Bytes()))
 			}
 		}
+	}
+}
+
+// watchdog runs f and reports whether it returned in time; a call that does not return keeps
+// its goroutine (and a core) until the process exits, so callers stop after a few of them
+const watchdogLimit = 10 * time.Second
+
+var hungCalls atomic.Int64
+
+func watchdog(f func()) bool {
+	done := make(chan struct{})
+	var p any
+	go func() {
+		defer func() { p = recover(); close(done) }()
+		f()
+	}()
+	select {
+	case <-done:
+		if p != nil {
+			panic(p)
+		}
+		return true
+	case <-time.After(watchdogLimit):
+		hungCalls.Add(1)
+		return false
 	}
 }
 
@@ -410,6 +464,24 @@ func driveV1(args map[string]string) error {
 						in = mutate(r, in)
 					case 1:
 						in = append(append(in, ' '), genText(r, cfg)...)
+					}
+					if c.Kind == "bytes" && r.IntN(3) == 0 { // trailing whitespace is preserved by Indent
+						in = append(in, []string{"\n", "\n  ", " \n\t ", "\n \n", "  ", "\r\n    "}[r.IntN(6)]...)
+					}
+					if c.Kind == "decoder" && r.IntN(4) == 0 && len(in) > 0 { // input ending anywhere, also after ',' and ':'
+						cut := r.IntN(len(in) + 1)
+						if r.IntN(2) == 0 { // right after a separator
+							var seps []int
+							for i, b := range in {
+								if b == ',' || b == ':' {
+									seps = append(seps, i+1)
+								}
+							}
+							if len(seps) > 0 {
+								cut = seps[r.IntN(len(seps))]
+							}
+						}
+						in = in[:cut]
 					}
 					c.Input = ints(in)
 				}
